@@ -224,12 +224,34 @@ func RunWorker(cfg *Config, chk Check, shard, stride, start int, out string) int
 		hangWall = hb.HangWallSeconds()
 	}
 	curCase.Store(-1)
+	// Partial sums: a worker that dies (crash, hang verdict) must not take the counts of the
+	// cases it completed with it. Deltas are flushed every 64 cases, by the hang monitor before
+	// it exits the process, and at the end (Done=true); the driver adds sums up.
+	var sumMu sync.Mutex
+	flush := func(done bool) {
+		sumMu.Lock()
+		defer sumMu.Unlock()
+		for h := range distinct {
+			sum.Distinct = append(sum.Distinct, h)
+		}
+		sum.Done = done
+		emit(wline{T: "sum", Sum: sum})
+		sum = &wsum{Cover: map[string]int{}}
+		distinct = map[uint64]struct{}{}
+	}
+	flushPartial = func() { flush(false) }
 	slowWall := 150
 	if sb, ok := chk.(SlowBudget); ok {
 		slowWall = sb.SlowWallSeconds()
 	}
 	go hangMonitor(hangWall, slowWall, emit)
+	sinceFlush := 0
 	for i := start; i < n; i += stride {
+		if sinceFlush >= 64 {
+			flush(false)
+			sinceFlush = 0
+		}
+		sinceFlush++
 		prog.WriteAt([]byte(fmt.Sprintf("%-12d", i)), 0)
 		caseCPU.Store(procCPU())
 		caseStart.Store(time.Now().UnixNano())
@@ -247,6 +269,7 @@ func RunWorker(cfg *Config, chk Check, shard, stride, start int, out string) int
 		if res.Evals == 0 {
 			res.Evals = 1
 		}
+		sumMu.Lock()
 		sum.Evals += res.Evals
 		sum.Cases++
 		if res.Key != "" && res.NonTrivial {
@@ -261,6 +284,7 @@ func RunWorker(cfg *Config, chk Check, shard, stride, start int, out string) int
 		if res.Sample != "" && len(sum.Samples) < 4 {
 			sum.Samples = append(sum.Samples, res.Sample)
 		}
+		sumMu.Unlock()
 		for k := range res.Viols {
 			v := res.Viols[k]
 			v.Case = i
@@ -276,24 +300,13 @@ func RunWorker(cfg *Config, chk Check, shard, stride, start int, out string) int
 				emit(wline{T: "d", Case: i, Data: b})
 			}
 		}
-		// Partial summary: what this worker has observed so far survives its death (a crash in a
-		// later case, or the driver's worker watchdog). The driver adds up all "sum" lines.
-		if sum.Cases >= 200 {
-			for h := range distinct {
-				sum.Distinct = append(sum.Distinct, h)
-			}
-			emit(wline{T: "sum", Sum: sum})
-			sum = &wsum{Cover: map[string]int{}}
-			distinct = map[uint64]struct{}{}
-		}
 	}
-	for h := range distinct {
-		sum.Distinct = append(sum.Distinct, h)
-	}
-	sum.Done = true
-	emit(wline{T: "sum", Sum: sum})
+	flush(true)
 	return 0
 }
+
+// flushPartial is set by RunWorker; the hang monitor calls it before it exits the process.
+var flushPartial = func() {}
 
 var reGoroutine = regexp.MustCompile(`(?m)^goroutine (\d+) \[([^\]]*)\]:`)
 var reAddr = regexp.MustCompile(`\(0x[0-9a-f, x.]*\)|\+0x[0-9a-f]+|0x[0-9a-f]+`)
@@ -385,6 +398,7 @@ func hangMonitor(hangWall, slowWall int, emit func(wline)) {
 			g := s1[0]
 			emit(wline{T: "hang", Case: int(c), Hang: &HangInfo{Kind: "blocked", Site: g.site, State: g.state,
 				Stack: clip(g.frames, 2000), CPUms: cpuDelta / 1e6}})
+			flushPartial()
 			os.Exit(3)
 		}
 		// spinning arm: >=30 s CPU in this case and three identical full stacks 10 CPU-seconds apart
@@ -425,6 +439,7 @@ func hangMonitor(hangWall, slowWall int, emit func(wline)) {
 			if ident && len(ref) > 0 {
 				emit(wline{T: "hang", Case: int(c), Hang: &HangInfo{Kind: "spin", Site: ref[0].site, State: ref[0].state,
 					Stack: clip(ref[0].frames, 2000), CPUms: (procCPU() - caseCPU.Load()) / 1e6}})
+				flushPartial()
 				os.Exit(3)
 			}
 		}
@@ -434,6 +449,7 @@ func hangMonitor(hangWall, slowWall int, emit func(wline)) {
 				site = s1[0].site
 			}
 			emit(wline{T: "hang", Case: int(c), Hang: &HangInfo{Kind: "slow", Site: site, CPUms: (procCPU() - caseCPU.Load()) / 1e6}})
+			flushPartial()
 			os.Exit(4)
 		}
 	}
